@@ -258,6 +258,23 @@ def run(spec, ctx):
         # result must append exactly the tokens the suffix pointer itself has (decoded once)
         from jsonpath import JSONPointer
 
+        import warnings
+
+        # backslash sequences that are not escapes, in suffix and base texts, where deprecation warnings raised from the
+        # library's modules are errors: parsing and applying must still end in a pointer or a pointer error
+        with warnings.catch_warnings():
+            for cat in (DeprecationWarning, PendingDeprecationWarning):
+                warnings.filterwarnings("error", category=cat, module=r"jsonpath(\.|$)")
+            for seq in ("\\8", "\\9", "\\400", "\\777", "\\g", "\\ ", "\\e", "\\8\\9", "x\\8y", "\\1", "\\x41", "\\N{BULLET}"):
+                for rtxt, btxt in (("1+12/x%sy" % seq, "/a/3/b"), ("0/%s" % seq, "/a"), ("1#", "/a/%s/b" % seq), ("0-1", "/a%s/5" % seq), ("2/%s/%s" % (seq, seq), "/p/q")):
+                    ctx.evaluation()
+                    ctx.case(h("bs-warn", rtxt, btxt))
+                    for name, fn in (("RelativeJSONPointer()", lambda: RelativeJSONPointer(rtxt)), ("rel.to(text)", lambda: RelativeJSONPointer(rtxt).to(btxt)), ("pointer.to(text)", lambda: JSONPointer(btxt).to(rtxt)), ("str", lambda: str(RelativeJSONPointer(rtxt)))):
+                        o = impl.call(fn)
+                        ctx.count("backslash_texts_with_warnings_as_errors")
+                        if not o.ok and not isinstance(o.exc, (jsonpath.RelativeJSONPointerError, jsonpath.JSONPointerError)):
+                            ctx.violation("application-raised-foreign:%s" % type(o.exc).__name__, {"backslash": True, "base": btxt, "text": rtxt}, {"base": btxt, "relative": rtxt, "route": name, "error": o.desc()})
+                            return
         for suffix in ("/\\u005cu0041", "/a/\\u005cn", "/\\u005c\\u005c", "/\\u005cu00e9/x", "/\\u0041", "/\\u00e9", "/\\ud83d\\ude00", "/a\\u002fb"):
             for base in ("/a/b", "/0/1", ""):
                 for steps in (0, 1):
